@@ -1424,6 +1424,94 @@ def gen_token(lines):
     if "Deserializer::from_str(s) .parse_any_signed_number() .map(Into::into)" not in fs:
         miss("de.token.from_str", "Number::from_str is no longer parse_any_signed_number on the whole string")
 GENERATORS.append(("Token", gen_token))
+# ------------------------------------------------------------------ ser.rs: is every writer-facing call checked? (C13)
+def _close_paren(t, i):
+    """index of the `)` matching the `(` at t[i] (string / char literals skipped)"""
+    depth, j, n = 0, i, len(t)
+    while j < n:
+        c = t[j]
+        if c == '"':
+            j += 1
+            while t[j] != '"':
+                j += 2 if t[j] == "\\" else 1
+            j += 1; continue
+        if c == "'":
+            mm = re.match(r"'(?:[^'\\]|\\.[^']*)'", t[j:])
+            if mm: j += mm.end(); continue
+        if c == "(": depth += 1
+        elif c == ")":
+            depth -= 1
+            if depth == 0: return j
+        j += 1
+    return -1
+
+
+def gen_write(lines):
+    """Every expression of src/ser.rs through which bytes can reach the `io::Write` — `writer.write_all(..)`, a `Formatter`
+    method call, `format_escaped_str(_contents)`, `indent` — must hand its `io::Result` on: under `tri!(..)`, followed by
+    `?`, after `return`, as the tail expression of its block / match arm, or scrutinised by a `match` that stores the error
+    (`collect_str`'s adapter). Anything else (`let _ = ..;`, a bare `..;`, `.ok()`, `let r = ..;` …) is listed with its line."""
+    raw = src("ser.rs")
+    # keep offsets -> lines: blank the comments out instead of deleting them
+    t = re.sub(r"/\*.*?\*/", lambda m: re.sub(r"[^\n]", " ", m.group(0)), raw, flags=re.S)
+    t = re.sub(r"//[^\n]*", lambda m: " " * len(m.group(0)), t)
+    pats = [
+        r"\b(?:writer|wr)\s*\.\s*write_all\s*\(",
+        r"\b(?:(?:self|ser|serializer)\s*\.\s*)*formatter\s*\.\s*\w+\s*\(",
+        r"\bself\s*\.\s*(?:begin_\w+|end_\w+|write_\w+)\s*\(\s*writer\b",
+        r"(?<!fn )\b(?:format_escaped_str_contents|format_escaped_str|indent)\s*\(",
+    ]
+    seen, kinds, unchecked = set(), {"tri": 0, "tail": 0, "return": 0, "question": 0, "match": 0}, []
+    for pat in pats:
+        for m in re.finditer(pat, t):
+            if m.start() in seen: continue
+            seen.add(m.start())
+            line = t.count("\n", 0, m.start()) + 1
+            op = t.index("(", m.end() - 1) if t[m.end() - 1] != "(" else m.end() - 1
+            # pattern 3 ends after `writer`: its `(` is the one before
+            if pat == pats[2]: op = t.rindex("(", m.start(), m.end())
+            cl = _close_paren(t, op)
+            if cl < 0: unchecked.append(line); continue
+            rest = t[cl + 1:]
+            mm = re.match(r"\s*\.\s*map_err\(Error::io\)", rest)
+            if mm: rest = rest[mm.end():]
+            nx = rest.lstrip()[:1]
+            before = t[:m.start()].rstrip()
+            if nx == ")" and before.endswith("tri!("): kinds["tri"] += 1
+            elif nx == "?": kinds["question"] += 1
+            elif nx == ";" and before.endswith("return"): kinds["return"] += 1
+            elif nx == "}" and (before[-1:] in "{;}" or before.endswith("=>")): kinds["tail"] += 1
+            elif nx == "," and before.endswith("=>"): kinds["tail"] += 1
+            elif nx == "{" and before.endswith("match"):
+                body = fn_body(rest, r"\{") or ""
+                if re.search(r"Err\(err\)\s*=>\s*\{\s*self\.error\s*=\s*Some\(err\);\s*Err\(fmt::Error\)", body): kinds["match"] += 1
+                else: unchecked.append(line)
+            else: unchecked.append(line)
+    total = len(seen)
+    if total < 100: miss("ser.writer_calls", "only %d writer-facing calls found in ser.rs (expected > 100): the scanner no longer matches the source" % total)
+    lines.append("/-- expressions of `src/ser.rs` through which bytes can reach the `io::Write`: `writer.write_all(..)`, `Formatter` method")
+    lines.append("    calls, `format_escaped_str(_contents)`, `indent` -/")
+    lines.append("def serWriterCalls : Nat := %d" % total)
+    lines.append("/-- … of which: under `tri!(..)`; tail expression of a block or match arm; after `return`; followed by `?`;")
+    lines.append("    scrutinised by a `match` whose `Err` arm stores the error (`collect_str`) -/")
+    lines.append("def serWriterCallsTri : Nat := %d" % kinds["tri"])
+    lines.append("def serWriterCallsTail : Nat := %d" % kinds["tail"])
+    lines.append("def serWriterCallsReturn : Nat := %d" % kinds["return"])
+    lines.append("def serWriterCallsQuestion : Nat := %d" % kinds["question"])
+    lines.append("def serWriterCallsMatched : Nat := %d" % kinds["match"])
+    lines.append("/-- source lines of the calls whose `io::Result` is NOT handed on in one of these ways -/")
+    lines.append("def serUncheckedWriterCalls : List Nat := [%s]" % ", ".join(str(x) for x in sorted(unchecked)))
+    other = [t.count("\n", 0, mo.start()) + 1 for mo in re.finditer(r"\b(?:writer|wr)\s*\.\s*(\w+)\s*\(", t) if mo.group(1) != "write_all"]
+    lines.append("/-- source lines where a method other than `write_all` is called on the writer (`write`, `flush`, `write_fmt`, …) -/")
+    lines.append("def serWriterOtherMethodCalls : List Nat := [%s]" % ", ".join(str(x) for x in other))
+    m = re.search(r"macro_rules! tri \{\s*\(\$e:expr \$\(,\)\?\) => \{\s*match \$e \{\s*core::result::Result::Ok\(val\) => val,\s*"
+                  r"core::result::Result::Err\(err\) => return core::result::Result::Err\(err\),\s*\}\s*\};\s*\}", src("lib.rs"))
+    if not m: miss("ser.tri", "`macro_rules! tri` in lib.rs is not `match $e { Ok(val) => val, Err(err) => return Err(err) }` any more")
+    lines.append("/-- `tri!` is `match $e { Ok(val) => val, Err(err) => return Err(err) }` (src/lib.rs) -/")
+    lines.append("def triReturnsErr : Bool := %s" % ("true" if m else "false"))
+
+
+GENERATORS.append(("Write", gen_write))
 
 
 def main():
